@@ -293,7 +293,7 @@ def strat_files(draw, tier):
     mm = max(0, (n - start) - 2)
     m = draw(st.one_of(st.integers(min(1, mm), mm), st.integers(0, mm)))
     return {"layout": lay, "band": b, "start": start, "span": m, "sign": draw(st.sampled_from([1, 1, 1, -1])),
-            "gulp": draw(st.integers(1, n + 2)), "nsamps_frac": draw(st.integers(0, 1000))}
+            "gulp": draw(st.integers(1, n + 2)), "nsamps_frac": draw(st.integers(0, 1000)), "prior": draw(vs.prior_use(n))}
 
 
 def check_files(case, ctx):
@@ -303,7 +303,7 @@ def check_files(case, ctx):
     d0 = ctx.fresh_dir()
     paths, D, _, _ = vs.write_layout(lay, d0, fch1=b["fch1"], foff=b["foff"], tsamp=b["tsamp"])
     N, nch = D.shape
-    rd = FilReader(paths)
+    rd = vs.apply_prior_use(FilReader(paths), case.get("prior"))
     dm = dm_for_span(b, case["span"], case["sign"])
     d = np.asarray(rd.header.get_dmdelays(dm)).astype(np.int64).reshape(-1)
     start = case["start"]
